@@ -1,5 +1,18 @@
-(* Property C12 — UniqueId values stay unique within a DOM and change only on collision (statements only). *)
-From RbxVerif Require Import Base Dom Tree BaseFacts DomFacts.
+(* Property C12 — UniqueId values stay unique within a DOM and change only on collision (statements only).
+   Uniqueness is part of `Rep` (NoDup of the ids held, id set = ids held) and therefore of `WF`
+   (clauses 5 and 6), and every refinement lemma re-establishes it; "changes only on collision" is the
+   specification's `settle` rule, which the refinement lemmas show the concrete code follows. *)
+From RbxVerif Require Import Base Dom Tree BaseFacts DomFacts TreeFacts Rep RepWF
+  RefDestroy RefMoveWithin RefInsert RefMove.
+
+Theorem C12_unique_in_wf : forall d a, Rep d a -> WF d.
+Proof. exact rep_wf. Qed.
+Theorem C12_insert_settles : refines_insert.
+Proof. exact insert_refines. Qed.
+Theorem C12_transfer_settles : refines_move.
+Proof. exact move_refines. Qed.
+Theorem C12_destroy_frees : refines_destroy.
+Proof. exact destroy_refines. Qed.
 
 Theorem C12_insert_registers_uid : forall d nu r i d' nu',
   inner_insert d nu r i = (d', nu') ->
